@@ -7,33 +7,42 @@
 import NngModel.Proofs.LifeJudgeRel
 namespace Nng.LifeModel
 open Nng.Life Nng.Generated
-open Nng.LifeSpec (J JPipe JEp JSock upd put KU onOut)
+open Nng.LifeSpec (J JPipe JEp JSock upd put KU onOut isRace tol)
+
+theorem tol_of_not_race (op : LOp) (h : isRace op = false) : tol op = false := by
+  unfold tol; rw [h]; rfl
 
 def jLost (w : Bool) (q : JPipe) : JPipe := { q with lost := true, remWaived := q.remWaived || w }
 def jRedial (now : Nat) (x : JEp) : JEp := { x with redialSince := some now, background := true }
 
-theorem onOut_pclosed (op : LOp) (j : J) (p : Nat) (q : JPipe) (ep : JEp) (hq : j.pipes.lookup p = some q)
-    (hep : j.eps.lookup q.ep = some ep) :
+theorem onOut_pclosed (op : LOp) (hnr : isRace op = false) (j : J) (p : Nat) (q : JPipe) (ep : JEp)
+    (hq : j.pipes.lookup p = some q) (hep : j.eps.lookup q.ep = some ep) :
     onOut op j (.pclosed p) =
       if ep.dialer && !ep.closed && !q.lost then
         { j with pipes := upd j.pipes p (jLost ((j.sock q.sock).mask &&& 4 == 0)), eps := upd j.eps q.ep (jRedial j.now) }
       else { j with pipes := upd j.pipes p (jLost ((j.sock q.sock).mask &&& 4 == 0)) } := by
-  simp only [onOut, hq, hep]
+  simp only [onOut, hq, hep, hnr, tol_of_not_race op hnr, Bool.not_false, Bool.and_true, Bool.or_false]
   rfl
+
+/-- what `pev p k` does to the judge's record of the pipe -/
+def jEv (k : PEv) (q : JPipe) : JPipe :=
+  { q with evs := q.evs ++ [k], preWait := q.preWait && k != .pre, postWait := q.postWait && k != .post }
 
 theorem onOut_pev (op : LOp) (j : J) (p : Nat) (k : PEv) (q : JPipe) (hq : j.pipes.lookup p = some q)
     (h1 : q.evs.contains k = false) (h2 : q.evs.any (fun e => e.rank ≥ k.rank) = false)
-    (h3 : (k != .pre && !q.evs.contains .pre && (q.preReg || !q.anyReg)) = false)
-    (h4 : (k == .post && q.closedInPre) = false) (h5 : (j.sock q.sock).closedBefore = false) :
-    onOut op j (.pev p k) = { j with pipes := upd j.pipes p fun q => { q with evs := q.evs ++ [k] } } := by
+    (h3 : (k != .pre && !q.evs.contains .pre && ((q.preReg || !q.anyReg) && !q.unsure)) = false)
+    (h4 : (k == .post && q.closedInPre) = false) (h6 : (k == .rem && q.postWait) = false)
+    (h5 : (j.sock q.sock).closedBefore = false) :
+    onOut op j (.pev p k) = { j with pipes := upd j.pipes p (jEv k) } := by
   have hneg : ¬ ((p : Int) < 0) := by omega
-  simp only [onOut, hneg, if_false, Int.toNat_natCast, hq, h1, h2, h3, h4, h5, Bool.false_eq_true]
+  simp only [onOut, hneg, if_false, Int.toNat_natCast, hq, h1, h2, h3, h4, h5, h6, Bool.false_eq_true]
+  rfl
 
 /-- pipe_reap as the judge sees it -/
 theorem reapOne_jp (mask : Nat) (p : Pipe) (hi : PipeInv p) (hr : p.reaped = false) :
     ((reapOne mask p).2 = [.pclosed p.idx] ∧ jp (reapOne mask p).1 = jLost (mask &&& 4 == 0) (jp p)) ∨
     ((reapOne mask p).2 = [.pclosed p.idx, .pev p.idx .rem] ∧
-      jp (reapOne mask p).1 = { jLost (mask &&& 4 == 0) (jp p) with evs := p.evs ++ [.rem] } ∧
+      jp (reapOne mask p).1 = jEv .rem (jLost (mask &&& 4 == 0) (jp p)) ∧
       PEv.rem ∉ p.evs ∧ (∀ e ∈ p.evs, e.rank < 3) ∧ p.last ≠ 0) := by
   have hb := hi.bounded
   unfold reapOne
@@ -53,7 +62,7 @@ theorem reapOne_jp (mask : Nat) (p : Pipe) (hi : PipeInv p) (hr : p.reaped = fal
     have hlt3 : ∀ e ∈ p.evs, e.rank < 3 := fun e he => by have := hb e he; omega
     simp only [h, if_true]
     refine ⟨rfl, ?_, ?_, hlt3, hl⟩
-    · simp [jp, jLost, hr, hl, bne]
+    · simp [jp, jLost, jEv, hr, hl, bne]
     · intro hm; have := hlt3 _ hm; simp at this
 
 
@@ -144,7 +153,7 @@ theorem PipesRel_kill {st : State} {j : J} (hw : W st) (hr : PipesRel st j) {p :
   · have : (q.idx == p.idx) = false := by simpa using h
     simp [h, this]
 
-theorem killPipe_sim (S : SelE) (op : LOp) (st : State) (j : J) (i : Nat) (h : Mid S st j) (hcb : CB j) :
+theorem killPipe_sim (S : SelE) (op : LOp) (hnr : isRace op = false) (st : State) (j : J) (i : Nat) (h : Mid S st j) (hcb : CB j) :
     Mid S (killPipe st i).1 ((killPipe st i).2.foldl (onOut op) j) ∧ SameJ j ((killPipe st i).2.foldl (onOut op) j) := by
   have hW := killPipe_W st i h.w
   have hP := killPipe_inv st i h.pinv
@@ -182,7 +191,7 @@ theorem killPipe_sim (S : SelE) (op : LOp) (st : State) (j : J) (i : Nat) (h : M
       cases hd : e0.dialer with
       | false => simp
       | true => simp [hown.2 hd]
-    have hpc := onOut_pclosed op j p.idx (jp p) x hlp hx
+    have hpc := onOut_pclosed op hnr j p.idx (jp p) x hlp hx
     have hlost : (jp p).lost = false := hpr
     have hjsock : (jp p).sock = p.sock := rfl
     have hjep : (jp p).ep = p.ep := rfl
@@ -251,12 +260,13 @@ theorem killPipe_sim (S : SelE) (op : LOp) (st : State) (j : J) (i : Nat) (h : M
           apply List.any_eq_false.mpr
           intro e he'; have := hlt3 e he'; simp; omega)
         (by
-          show (PEv.rem != PEv.pre && !p.evs.contains PEv.pre && (p.preDue || !(p.last != 0))) = false
+          show (PEv.rem != PEv.pre && !p.evs.contains PEv.pre && ((p.preDue || !(p.last != 0)) && !false)) = false
           cases hpd : p.preDue with
           | false => simp [hl0]
           | true =>
             have := hinvp.pre_due hpd (by omega)
             simp [this])
+        (by rfl)
         (by rfl)
         (by
           show (j1.sock p.sock).closedBefore = false
@@ -293,14 +303,14 @@ theorem killPipes_cons (st : State) (i : Nat) (is : List Nat) :
   simp only [List.foldl_cons, List.nil_append]
   rw [foldR_acc killPipe is (killPipe st i).1 (killPipe st i).2]
 
-theorem killPipes_sim (S : SelE) (op : LOp) (is : List Nat) (st : State) (j : J) (h : Mid S st j) (hcb : CB j) :
+theorem killPipes_sim (S : SelE) (op : LOp) (hnr : isRace op = false) (is : List Nat) (st : State) (j : J) (h : Mid S st j) (hcb : CB j) :
     Mid S (killPipes st is).1 ((killPipes st is).2.foldl (onOut op) j) ∧ SameJ j ((killPipes st is).2.foldl (onOut op) j) := by
   induction is generalizing st j with
   | nil => exact ⟨h, SameJ.refl j⟩
   | cons i rest ih =>
     rw [killPipes_cons]
     simp only [List.foldl_append]
-    obtain ⟨h1, s1⟩ := killPipe_sim S op st j i h hcb
+    obtain ⟨h1, s1⟩ := killPipe_sim S op hnr st j i h hcb
     have hcb1 : CB ((killPipe st i).2.foldl (onOut op) j) := by
       intro s x hx; rw [s1.2.1] at hx; exact hcb s x hx
     obtain ⟨h2, s2⟩ := ih _ _ h1 hcb1
